@@ -5,8 +5,9 @@ cd "$(dirname "$(readlink -f "$0")")/.."
 export GOPROXY=off
 unset GOFLAGS GOTOOLCHAIN GOSUMDB 2>/dev/null
 mkdir -p .tmp; OUT=.tmp/baseline.$$.json; : > $OUT
+REPO=${1:-/repo}
 for m in . ./sdk/go/hydraidego; do
-  ( cd /repo/$m && gw=$(go env GOWORK); MF=""; { [ -z "$gw" ] || [ "$gw" = off ]; } && MF="-mod=mod"; go test $MF -json -vet=off -count=1 -timeout 25m ./... ) >> $OUT 2>/dev/null
+  ( cd $REPO/$m && gw=$(go env GOWORK); MF=""; { [ -z "$gw" ] || [ "$gw" = off ]; } && MF="-mod=mod"; go test $MF -json -vet=off -count=1 -timeout 25m ./... ) >> $OUT 2>/dev/null
 done
 python3 - "$OUT" <<'PY'
 import json,sys
